@@ -73,7 +73,24 @@ var retryableErrs []error = []error{
 	context.DeadlineExceeded,
 }
 
-var errorStrMap map[string]error = map[string]error{}
+var errorStrMap map[string]error = map[string]error{
+	// retryable at the origin (see retryableErrs), so it has to be recognised by the caller too
+	context.DeadlineExceeded.Error(): context.DeadlineExceeded,
+}
+
+// ErrorCanonical returns the defined error (or context.DeadlineExceeded) that err
+// is or wraps, so that its identity can be carried across RPC by message.
+func ErrorCanonical(err error) (error, bool) {
+	if err == nil {
+		return nil, false
+	}
+	for _, e := range errorStrMap {
+		if errors.Is(err, e) {
+			return e, true
+		}
+	}
+	return nil, false
+}
 
 func errorDef(str string, retryable bool) error {
 	err := &Error{
